@@ -79,7 +79,7 @@ def unknownNote : Note := { level := .warn, text := s "unknown algorithm" }
     Second component: the name is unknown to the database (goes to `unknown_algs`). -/
 def algTexts (db : DB) (cat name : Str) : Option (List Note × Bool) :=
   let n := gssNormalize cat name
-  if (Text.strip n).isEmpty then none
+  if (Text.stripU n).isEmpty then none
   else match DBm.lookup db cat n with
     | some e => some (entryTexts e, false)
     | none => some ([unknownNote], true)
